@@ -7,7 +7,9 @@
 use crate::common::*;
 use std::panic::{catch_unwind, AssertUnwindSafe};
 
+#[path = "c04/types.rs"]
 mod types;
+#[path = "c04/uints.rs"]
 mod uints;
 
 /// a component type of the quantifier (u8/u16/u32/f32/f64; u64/u128 only for the uint casts)
